@@ -35,7 +35,7 @@ func cloneShadow(s SV) SV {
 		}
 		return c
 	case *svMap:
-		c := &svMap{ti: x.ti, vid: x.vid, keys: append([]atree.Value(nil), x.keys...), vals: make(map[string]SV, len(x.vals))}
+		c := &svMap{ti: x.ti, vid: x.vid, top: x.top, keys: append([]atree.Value(nil), x.keys...), vals: make(map[string]SV, len(x.vals))}
 		for k, v := range x.vals {
 			c.vals[k] = cloneShadow(v)
 		}
@@ -100,6 +100,12 @@ func newSpec(hr *Rng, lo, hi int, detach bool) histSpec {
 	}
 	if sp.Prefill > 0 {
 		sp.Opts.KeySpace = 600
+	}
+	// a third of the histories hash with the library's REAL pooled digester but with first-level digests
+	// folded into a small alphabet, so that collision groups and the BLAKE3-based deeper levels are used
+	if hr.Chance(35) {
+		mod := uint64(2 + hr.Intn(12))
+		sp.Opts.RootDigester = func() atree.DigesterBuilder { return newCollideL0Builder(mod) }
 	}
 	return sp
 }
@@ -209,7 +215,7 @@ func (e *hexec) Reopen(preload []atree.SlabID, workers int) {
 			w.Fail("BatchPreload failed", err.Error())
 			return
 		}
-		openRoots(w, w.Roots, ids, w.Opts.Digester)
+		openRoots(w, w.Roots, ids, w.Opts.RootDigester)
 	})
 }
 
@@ -225,7 +231,11 @@ func openRoots(w *World, roots []SV, ids []atree.SlabID, dig func() atree.Digest
 			}
 			w.rehandle(x, a)
 		case *svMap:
-			m, err := atree.NewMapWithRootID(w.St, ids[i], dig())
+			d := dig
+			if !x.top {
+				d = w.Opts.Digester // detached (formerly nested) maps were created with the default builder
+			}
+			m, err := atree.NewMapWithRootID(w.St, ids[i], d())
 			if err != nil {
 				w.Fail("C03: map cannot be reopened by its root identifier", fmt.Sprintf("%s: %v", ids[i], err))
 				continue
